@@ -119,6 +119,7 @@ SEL_BLOCK = """SELECTED_OUTPUT 1
  -reset false
  -high_precision true
  -state true
+ -simulation true
  -solution true
  -step true
 USER_PUNCH 1
@@ -258,15 +259,20 @@ def case_cfg(case):
 
 # ----------------------------------------------------------------------------- reading results
 
-def parse_rows(res):
-    """-> (init {soln: row}, steps {step: {soln: row}}) from table 1; rows are dicts heading->value"""
+def parse_rows(res, sims=None):
+    """-> (initial solutions {soln: row}, step-0 rows {soln: row}, steps {step: {soln: row}}) from table 1; rows are dicts
+    heading->value. sims = (simulation number of the SOLUTION definitions, number of the TRANSPORT run - the sim column of transport rows is simul_tr) restricts the rows
+    (inputs with several TRANSPORT runs)"""
     init, steps, isol = {}, {}, {}
     rows = vlib.table_dicts(res.get("tables", {}).get("1"))
     for r in rows:
         st = r.get("state")
         if st == "i_soln":
-            isol[r["soln"]] = r
+            if sims is None or r.get("sim") == sims[0]:
+                isol[r["soln"]] = r
         elif st == "transp":
+            if sims is not None and r.get("sim") != sims[1]:
+                continue
             if r["step"] == 0:
                 init[r["soln"]] = r
             else:
@@ -275,8 +281,8 @@ def parse_rows(res):
 
 
 def reported_nmix(res):
-    m = re.search(r"Calculating transport: (\d+) \(mobile\) cells, (\d+) shifts, (\d+) mixruns", res.get("warn", ""))
-    return int(m.group(3)) if m else None
+    m = re.findall(r"Calculating transport: (\d+) \(mobile\) cells, (\d+) shifts, (\d+) mixruns", res.get("warn", ""))
+    return int(m[-1][2]) if m else None
 
 
 def near_integer(x, eps=Fr(1, 10 ** 9)):
@@ -322,10 +328,10 @@ def compare_tracer_case(case, res, collect=None, elcols=None):
     if rn is None:
         return dict(status="no-nmix", detail=res.get("warn", "")[-300:])
     if rn != nmix:
-        if near_integer(Fr(3, 2) * maxmix):
+        if near_integer(Fr(3, 2) * maxmix) and abs(rn - nmix) <= 1:
             return dict(status="nmix-rounding-ambiguous", detail="1.5*maxmix=%s" % float(Fr(3, 2) * maxmix))
         return dict(status="mismatch", what="nmix", observed=rn, expected=nmix, detail="maxmix=%s" % float(maxmix))
-    isol, init, steps = parse_rows(res)
+    isol, init, steps = parse_rows(res, case.get("sims"))
     n = case["n"]
     cols = list(elcols or ["m" + t for t in TRACERS]) + ["cb"]
     if nmix == 0 and case["ishift"] == 0:
@@ -374,13 +380,15 @@ def qlist(xs):
 
 
 def coq_cfg(case):
+    if case.get("coq_cfg"):
+        return case["coq_cfg"]
     cells = "; ".join("mkCell %s %s" % (qc(fr(l)), qc(fr(d))) for l, d in zip(case["lens"], case["disps"]))
     return "(mkCfg [%s] %s %s (%d)%%Z %d%%Z %d%%Z %s)" % (cells, qc(fr(case["diffc"])), qc(fr(case["timest"])), case["ishift"],
                                                        case["bcf"], case["bcl"], "true" if case["corrd"] else "false")
 
 
 COQ_HEAD = """From Coq Require Import QArith ZArith List.
-From IPV.C11 Require Import Transport Checker McdMix McdMixProofs.
+From IPV.C11 Require Import Transport Checker McdMix McdMixProofs Setup.
 Import ListNotations.
 Open Scope Q_scope.
 """
@@ -563,7 +571,7 @@ def gen_advect(rng):
 
 def first_rows(case, res):
     """(state before the first shift {cell: row}, steps) ; boundary / ADVECTION rows come from the initial solutions"""
-    isol, init, steps = parse_rows(res)
+    isol, init, steps = parse_rows(res, case.get("sims"))
     if case.get("keyword") == "ADVECTION":
         rows = vlib.table_dicts(res.get("tables", {}).get("1"))
         steps = {}
@@ -625,7 +633,7 @@ def check_inventory(case, res):
     if st:
         return dict(status=st, detail=res.get("err", "")[-300:])
     added = "Negative concentration in MCD" in res.get("warn", "")
-    isol, init, steps = parse_rows(res)
+    isol, init, steps = parse_rows(res, case.get("sims"))
     cells = case["ncell_rows"]
     if not steps:
         return dict(status="ok-nothing-moves", detail="")
@@ -893,7 +901,7 @@ def check_mcd_nmix(case, res):
     L = cfg["lens"]
     worst = max([dmax * cfg["timest"] / (((L[k] + L[k + 1]) / 2) ** 2) for k in range(len(L) - 1)] or [Fr(0)])
     if im["nmix"] != nm:
-        if near_integer(fm) or (sub > 1 and near_integer(fm * sub)):
+        if (near_integer(fm) or (sub > 1 and near_integer(fm * sub))) and abs(im["nmix"] - nm) <= (1 if sub <= 1 else sub.__ceil__() + 1):
             return dict(status="nmix-rounding-ambiguous", detail="")
         return dict(status="mismatch", what="MCD mixruns", observed=im["nmix"], expected=nm,
                     detail="diffc_max=%.6g timest=%.6g: largest interface Fourier number %.4g needs > %.4g sub-steps"
@@ -904,6 +912,91 @@ def check_mcd_nmix(case, res):
 
 def coq_mcd_term(case, dmax, sub, reported):
     return "(McdMixProofs.check_mcd_nmix %s %s %s (%d)%%Z)" % (coq_cfg(case), qc(dmax), qc(sub), reported)
+
+
+# ----------------------------------------------------------------------------- several TRANSPORT runs on one instance (cell set-up)
+
+def fill_setup(dflt, old_cells, mx, prev, given):
+    """mirror of coq/C11/Setup.v fill (readtr.cpp: 'Fill in data for lengths / dispersivities'); values are decimal texts"""
+    if not given:
+        return [dflt] * mx if old_cells < mx else list(prev[:mx])
+    return list(given[:mx]) + [given[-1]] * (mx - len(given))
+
+
+def seq_transport_block(n, shifts, gl, gd, diffc, timest, ishift, bcf, bcl, corrd):
+    fl = {1: "forward", -1: "backward", 0: "diffusion_only"}[ishift]
+    bc = {1: "constant", 2: "closed", 3: "flux"}
+    t = "TRANSPORT\n -cells %d\n -shifts %d\n" % (n, shifts)
+    if gl:
+        t += " -lengths %s\n" % " ".join(gl)
+    if gd:
+        t += " -dispersivities %s\n" % " ".join(gd)
+    t += " -diffusion_coefficient %s\n -time_step %s\n -flow_direction %s\n" % (diffc, timest, fl)
+    t += " -boundary_conditions %s %s\n -correct_disp %s\n" % (bc[bcf], bc[bcl], "true" if corrd else "false")
+    t += " -punch_cells 0-%d\n -punch_frequency 1\n -print_frequency 1000000\n -warnings true\nEND\n" % (n + 1)
+    return t
+
+
+def gen_sequence(rng):
+    """two TRANSPORT runs on one instance: the second has more / the same number of / fewer cells and gives -lengths and
+    -dispersivities fully, partly (last value is repeated) or not at all (defaults 1 m and 0, or the former values are retained)"""
+    def given(n, pool, avoid):
+        r = rng.random()
+        vals = [rng.choice([x for x in pool if x != avoid]) for _ in range(n)]
+        if rng.random() < 0.5:
+            vals = [vals[0]] * n
+        if r < 0.45:
+            return []
+        if r < 0.7 and n > 1:
+            return vals[:rng.randint(1, n - 1)]
+        return vals
+    n1 = rng.randint(1, 8)
+    r = rng.random()
+    n2 = rng.randint(n1 + 1, n1 + 5) if r < 0.6 else n1 if r < 0.8 else rng.randint(1, n1)
+    gl1 = given(n1, DYADIC_LEN[:8], "1") or ([rng.choice(["0.25", "0.5", "2"])] if rng.random() < 0.8 else [])
+    gd1 = given(n1, DYADIC_DISP, "0") or ([rng.choice(["0.125", "0.5"])] if rng.random() < 0.8 else [])
+    gl2 = given(n2, DYADIC_LEN[:8], None)
+    gd2 = given(n2, DYADIC_DISP, None)
+    L1, D1 = fill_setup("1", 0, n1, [], gl1), fill_setup("0", 0, n1, [], gd1)
+    L2, D2 = fill_setup("1", n1, n2, L1, gl2), fill_setup("0", n1, n2, D1, gd2)
+    ishift = rng.choice([0, 0, 1, -1])
+    bcf, bcl = (rng.choice([2, 3]), rng.choice([2, 3])) if rng.random() < 0.6 else (rng.randint(1, 3), rng.randint(1, 3))
+    lmin = min(float(x) for x in L2)
+    if ishift != 0 and rng.random() < 0.4:
+        diffc, timest = "0", "3600"
+    else:
+        diffc = DIFFC_DYADIC
+        timest = dec(rng.choice([0.125, 0.25, 0.5, 1]) * lmin * lmin * 2.0 ** 30)
+    case = dict(kind="sequence", n=n2, ishift=ishift, bcf=bcf, bcl=bcl, corrd=rng.random() < 0.3, lens=L2, disps=D2, diffc=diffc,
+                timest=timest, lattice=True, sims=(4, 2), n1=n1, gl1=gl1, gd1=gd1, gl2=gl2, gd2=gd2)
+    nmix, _, _ = mixf(case_cfg(case))
+    if nmix > 8:
+        return gen_sequence(rng)
+    case["shifts"] = rng.randint(1, 4)
+    case["sols1"] = [{t: rnd_conc(rng) for t in TRACERS} for _ in range(n1 + 2)]
+    case["sols"] = [{t: rnd_conc(rng) for t in TRACERS} for _ in range(n2 + 2)]
+    case["run1"] = dict(shifts=rng.randint(1, 2), diffc=DIFFC_DYADIC, timest=dec(0.25 * min(float(x) for x in L1) ** 2 * 2.0 ** 30),
+                        ishift=rng.choice([0, 1]), bcf=3, bcl=3, corrd=False)
+    case["elcols"] = ["m" + t for t in TRACERS]
+    case["ncell_rows"] = list(range(1, n2 + 1))
+    ql = lambda xs: "[" + "; ".join(qc(fr(x)) for x in xs) + "]"
+    case["coq_cfg"] = "(setup_cfg %d %d %s %s %s %s %s %s (%d)%%Z %d%%Z %d%%Z %s)" % (
+        n1, n2, ql(L1), ql(D1), ql(gl2), ql(gd2), qc(fr(diffc)), qc(fr(timest)), ishift, bcf, bcl, "true" if case["corrd"] else "false")
+    return case
+
+
+def sequence_input(case):
+    txt = "KNOBS\n -convergence_tolerance 1e-12\nPRINT\n -reset false\n" + sel_block(TRACER_COLS)
+    for k in range(case["n1"] + 2):
+        txt += tracer_solution(k, case["sols1"][k])
+    r1 = case["run1"]
+    txt += "END\n" + seq_transport_block(case["n1"], r1["shifts"], case["gl1"], case["gd1"], r1["diffc"], r1["timest"], r1["ishift"],
+                                          r1["bcf"], r1["bcl"], r1["corrd"])
+    for k in range(case["n"] + 2):
+        txt += tracer_solution(k, case["sols"][k])
+    txt += "END\n" + seq_transport_block(case["n"], case["shifts"], case["gl2"], case["gd2"], case["diffc"], case["timest"], case["ishift"],
+                                          case["bcf"], case["bcl"], case["corrd"])
+    return txt
 
 
 # the defect found while building this check (notes/C11.md, finding 1); fixed input, stable key
@@ -948,11 +1041,13 @@ CHECKS = {"tracer": lambda case, res: compare_tracer_case(case, res),
 
 
 def case_text(case):
+    if case.get("kind") == "sequence":
+        return sequence_input(case)
     return tracer_input(case) if case.get("kind", "tracer") == "tracer" else build_input(case)
 
 
 def slim(case):
-    return {k: v for k, v in case.items() if k not in ("sols", "soltext", "cols")}
+    return {k: v for k, v in case.items() if k not in ("sols", "sols1", "soltext", "cols", "coq_cfg")}
 
 
 REPORTED = {}
@@ -1009,6 +1104,13 @@ def run(ctx):
     for i in range(nV):
         jobs.append((["exact-shift", "range"], gen_advect(rng), "V"))
     jobs.append((["inventory"], prefix_defect_case(), "known-defect"))
+    # two TRANSPORT runs on one instance: cell set-up (defaults for all cells of a grown column, retention, short lists)
+    for i in range(ctx.n(30, 200) * boost):
+        c = gen_sequence(rng)
+        cks = ["tracer", "range"]
+        if c["ishift"] == 0 and c["bcf"] != 1 and c["bcl"] != 1 and len(set(c["lens"])) == 1:
+            cks.append("inventory")
+        jobs.append((cks, c, "Q"))
     # explicit MCD with unequal lengths (sub-step count of init_mix): separate driver that also reports diffc_max / nmix
     nS = ctx.n(40, 300) * boost
     sjobs = []
@@ -1048,7 +1150,7 @@ def run(ctx):
     for i, (checks, case, pool) in enumerate(jobs):
         r0 = res.get(i, {"timeout": True})
         for ck in checks:
-            collect = [] if (ck == "tracer" and pool in ("A", "B")) else None
+            collect = [] if (ck == "tracer" and pool in ("A", "B", "Q")) else None
             if ck == "tracer":
                 r = compare_tracer_case(case, r0, collect=collect)
             else:
@@ -1099,6 +1201,9 @@ def run(ctx):
                           "R": "chemistry-rich dispersive/diffusive columns: python mirror for every element + range",
                           "I-*": "closed diffusion-only columns: inventory constancy 1e-9 (single D equal lengths, MCD, implicit, solids via SYS(), stagnant)",
                           "V": "pure advection (ADVECTION / TRANSPORT): exact shift",
+                          "Q": "two TRANSPORT runs on one instance (second: more/same/fewer cells; -lengths / -dispersivities given fully, partly or not at all): "
+                               "the set-up model (Setup.v: defaults for ALL cells of a grown column, retention, last value repeated) feeds the transport model; "
+                               "python mirror + Coq checker (setup_cfg), range, closed equal-length inventory",
                           "S": "explicit MCD, unequal lengths (finest cells at the end/start/middle/anywhere), time steps 0.2..30x the stability "
                                "limit of the finest interface, all boundary pairs, with/without advection, mcd_substeps: mixruns = model (python + Coq "
                                "check_mcd_nmix, diffc_max read from the engine by harness/c11_mcd.cpp); closed diffusion-only ones also inventory 1e-9"}
